@@ -6,10 +6,14 @@
 #include <cstddef>
 extern "C" void verif_assert(int cond, int id);
 extern "C" void __CPROVER_assume(int);
+// typed allocation of `count` elements of `elem_size` bytes: ll2c turns this into malloc(sizeof(T) * count)
+// with T taken from the cast of the result, so that CBMC creates a typed array object (never fails).
+extern "C" void* vmodel_alloc(std::size_t count, std::size_t elem_size, void* type_hint);
 #ifndef VMODEL_CAP
 #define VMODEL_CAP 8
 #endif
 namespace vmodel {
+template<class T> inline T* typed_alloc(std::size_t n) { T* hint; return static_cast<T*>(vmodel_alloc(n, sizeof(T), &hint)); }
 template<class T> struct capacity { static constexpr std::size_t value = VMODEL_CAP; };
 }
 #include <initializer_list>
